@@ -45,6 +45,7 @@ let run toks =
       (match dec1 (fuel_for b) (san = "1") schema (nat_of_int (int_of_string tid)) (boxed = "0") [] b with
        | Some (Ok (v, rest)) -> "ok " ^ value_to_string v ^ " | " ^ hex_of_bytes rest
        | r -> show_dres r)
+  | ["wf"] -> if wf_schema schema then "ok true" else "ok false"
   | l -> "driver-error unknown op " ^ String.concat " " l
 
 let () = each_line run
